@@ -118,6 +118,52 @@ def h_otherkey(k, integ_id):
         shims.HMAC_UF.injective = False
 
 
+def h_after_genuine(k, integ_id, region):
+    """the SAME Crypto object (as in a live IKE_SA) first verifies an authentic message, then is given a copy of it with one octet of the header, the IV
+    or the ciphertext changed (arbitrary position in the region, arbitrary non-zero difference) and the ORIGINAL checksum: rejected.
+    Axiom: the truncated MACs of two different byte strings under the same key differ."""
+    from symx import core, shims
+    eng = core.engine()
+    m, c = MODS['message'], MODS['crypto']
+    T = m.Transform
+    cipher = c.Cipher(T(T.Type.ENCR, T.EncrId.ENCR_AES_CBC, 256))
+    integ = c.Integrity(T(T.Type.INTEG, integ_id))
+    prf = c.Prf(T(T.Type.PRF, T.PrfId.PRF_HMAC_SHA2_256))
+    hname, hs, ks = INTEG[integ_id]
+    sk_e, sk_a = eng.sym_bytes('sk_e', 32), eng.sym_bytes('sk_a', ks)
+    crypto = c.Crypto(cipher, sk_e, integ, sk_a, prf, b'p' * 32)
+    msg = m.Message(eng.sym_bytes('spi_i', 8), eng.sym_bytes('spi_r', 8), 2, 0, m.Message.Exchange.INFORMATIONAL, False, False, True,
+                    eng.sym_int('msg_id', 0, 0xFFFFFFFF), [], [m.PayloadVENDOR(eng.sym_bytes('vendor', k))], crypto=crypto, iv=eng.sym_bytes('iv', 16))
+    data = core.SymBytes.lift(msg.to_bytes())
+    n = len(data)
+    # octet 16 (Next Payload) decides whether there is an Encrypted payload at all (C03), 24..27 is the length field (a wrong length is another matter)
+    lo, hi = {'spis': (0, 16), 'version_exchange_flags': (17, 20), 'message_id': (20, 24), 'iv': (32, 48), 'ciphertext': (48, n - hs)}[region]
+    pos = eng.sym_int('position', lo, hi - 1)
+    pos = eng.concretize(pos, lo, hi - 1) if not isinstance(pos, int) else pos
+    diff = eng.sym_int('difference', 1, 255)
+    items = list(data.items)
+    items[pos] = core.int_to_byte(data[pos] ^ diff)
+    d2 = core.SymBytes(items)
+    ref1 = core.SymBytes.lift(shims.SymHMAC(sk_a, data[:-hs], digestmod=integ.hasher).digest())[:hs]
+    ref2 = core.SymBytes.lift(shims.SymHMAC(sk_a, d2[:-hs], digestmod=integ.hasher).digest())[:hs]
+    eng.assume(core.SymBytes.lift(ref1) != ref2)
+    lower = lambda x: x.lower() if isinstance(x, core.SymBytes) else x
+    try:
+        m.Message.parse(lower(data), crypto=crypto)
+    except m.IkeSaError as ex:
+        return {'class': ['after_genuine'], 'violation': f'an authentic message is rejected ({ex})'}
+    try:
+        m.Message.parse(lower(d2), crypto=crypto)
+    except m.IkeSaError:
+        # the authentic one is still accepted afterwards
+        try:
+            m.Message.parse(lower(data), crypto=crypto)
+        except m.IkeSaError as ex:
+            return {'class': ['after_genuine'], 'violation': f'after a forged copy was rejected the authentic message is rejected too ({ex})'}
+        return ['after_genuine', 'rejected']
+    return {'class': ['after_genuine'], 'violation': f'after the authentic message had been verified, a copy with octet {pos} ({region}) changed and the original checksum was accepted'}
+
+
 def h_emit(who, kind):
     """IkeSa.generate_request / generate_response of a keyed IKE_SA with an ARBITRARY exchange type and arbitrary payload bytes: unless the
     exchange is IKE_SA_INIT, the datagram carries exactly one clear payload - the Encrypted payload, extending to the end of the datagram -
@@ -282,6 +328,11 @@ def build_instances(tier):
         for kind in ('request', 'response'):
             inst.append(Instance(f'emitted {kind} of {who} with any exchange type', h_emit, (who, kind),
                                  must_reach=[('protected', lambda o: o == ['emit', 'protected']), ('init', lambda o: o == ['emit', 'ike_sa_init'])]))
+    for integ_id in (2, 12, 14):
+        for region in ('spis', 'version_exchange_flags', 'message_id', 'iv', 'ciphertext'):
+            for k in ((1,) if tier == 'quick' else (1, 12, 28)):
+                inst.append(Instance(f'copy of a verified message, {region} changed vendor_len={k} integ={integ_id}', h_after_genuine, (k, integ_id, region),
+                                     native=common.native_of(h_after_genuine), must_reach=[('rejected', lambda o: o == ['after_genuine', 'rejected'])]))
     for k in {'quick': (1, 12), 'thorough': (1, 5, 12, 28)}[tier]:
         for integ_id in (2, 12, 14):
             inst.append(Instance(f'other integrity key vendor_len={k} integ={integ_id}', h_otherkey, (k, integ_id), native=common.native_of(h_otherkey),
@@ -298,7 +349,7 @@ def replay_file(path):
     """native replay with the real AES/HMAC: differential test of the same facts on the concrete witness"""
     global MODS
     iname = json.load(open(path)).get('instance', '')
-    if 'other integrity key' in iname or iname.startswith(('emitted', 'error response', 'extended by')):
+    if 'other integrity key' in iname or iname.startswith(('emitted', 'error response', 'extended by', 'copy of a verified')):
         def _ld():
             global MODS
             from . import world
